@@ -12,7 +12,9 @@ TAU = 2000  # µs: "only events within about 2 ms of an edge may go either way"
 RULE = ("per case one store and one bucket holding 1-12 events (overlapping, nested, adjacent, identical, zero-length, "
         "up to exactly 24 h long, events reaching a window from ~24 h before it) and ~25 windows (open on either "
         "side, zero-width, sub-millisecond, edges exactly on / 1 µs / 1 ms / 3 ms around event starts and ends, "
-        "independent UTC offsets on both edges) × limits {-1, 0, 1, 2, n, n+1}; each window is read and counted; "
+        "independent UTC offsets on both edges) × limits {-1, 0, 1, 2, n, n+1}; each window is read and counted; up to three "
+        "writes (insert / delete / replace / replace_last) are interleaved, each followed by a verbatim repetition of an "
+        "earlier window; "
         "evaluations = windows read; non-trivial = some event lies partly inside the window, or the limit truncates; "
         "signature = (backend, set of Allen relations event->window, limit class, open sides, truncated?)")
 ASSUMPTIONS = ["events are at most 24 h long (the statement's domain)", "window start <= window end",
@@ -73,7 +75,15 @@ def gen_case(rng, ctx):
         q = dict(ws=ws, wo=rand_offset(rng), we=we, eo=rand_offset(rng),
                  limit=rng.choice([-1, -1, -1, -5, 0, 1, 1, 2, len(evs), len(evs) + 1, 3]))
         qs.append(q)
-    return dict(backend=backend, events=evs, queries=qs)
+    # writes between the reads (anything remembered from an earlier read must not survive them); each is followed by a
+    # verbatim repetition of an earlier window
+    muts = []
+    for k in sorted(rng.sample(range(1, 25), rng.choice([0, 1, 2, 3]))):
+        s = base + rng.randrange(0, 30) * unit
+        muts.append(dict(before=k, op=rng.choice(["insert", "delete", "replace", "replace_last"]), pick=rng.randrange(100),
+                         ev=dict(ts=s, dur=rng.randrange(0, 12) * unit + rng.choice([0, 1, 999]), off=rand_offset(rng), data={"uid": 1000 + k}),
+                         repeat=rng.randrange(0, k)))
+    return dict(backend=backend, events=evs, queries=qs, muts=muts)
 
 
 def judge_read(stored, q, got, count, viols, backend):
@@ -158,7 +168,34 @@ def run_case(case, ctx):
             return [("setup-lost-events", f"{len(stored)} of {len(evs)}")], dict(sig=("setup",), nontrivial=False)
         sigs = []
         nontriv = 0
-        for q in case["queries"]:
+        queries = list(case["queries"])
+        muts = {m["before"]: m for m in case.get("muts", [])}
+        qi = -1
+        while qi + 1 < len(queries):
+            qi += 1
+            m = muts.pop(qi, None) if qi in muts else None
+            if m is not None and stored:
+                ev = mk_event(m["ev"])
+                want = (dt_us(ev.timestamp), dt_us(ev.timestamp) + td_us(ev.duration), canon(ev.data))
+                ids_sorted = sorted(stored)
+                target = ids_sorted[m["pick"] % len(ids_sorted)]
+                if m["op"] == "insert":
+                    r = b.insert(ev)
+                    stored[r.id] = want
+                elif m["op"] == "delete":
+                    b.delete(target)
+                    del stored[target]
+                elif m["op"] == "replace":
+                    b.replace(target, ev)
+                    stored[target] = want
+                else:
+                    top = b.get(1)
+                    if top:
+                        b.replace_last(ev)
+                        stored[top[0].id] = want
+                ctx.count("writes_between_reads")
+                queries.insert(qi, dict(case["queries"][m["repeat"]]))     # the same window again, now after a write
+            q = queries[qi]
             kw = {}
             if q["ws"] is not None:
                 kw["starttime"] = mk_dt(q["ws"], q["wo"])
@@ -178,5 +215,5 @@ def run_case(case, ctx):
                     ctx.sigs.add(canon([backend] + list(sig)))
             if len(viols) > before + 3:
                 break
-    nq = len(case["queries"])
+    nq = len(queries) if "queries" in dir() else len(case["queries"])
     return viols, dict(sig=None, nontrivial=nontriv > 0, weight=nq, nontrivial_weight=nontriv)
